@@ -9,6 +9,7 @@ import Noodles.Hostile.BamRecord
 import Noodles.Hostile.BcfSite
 import Noodles.Hostile.CsiQuery
 import Noodles.Hostile.DriverC15Text
+import Noodles.Hostile.DriverC15Bin
 /-! Line-protocol handler for the hostile-input suites (`c15 …`). -/
 namespace Noodles.Hostile
 open Noodles.Wire hiding Bytes
@@ -89,6 +90,6 @@ def handleC15 : List String → String
     | some ms, some d, some ids, some st, some en =>
       fmtRes (fun (l : List Nat) => s!"ok:{fmtIds l}") (Csi.query true ms d ids st en)
     | _, _, _, _, _ => "bad-op"
-  | rest => TextDriver.handleC15Text rest
+  | ws => (Bin.handleC15Bin ws).getD (TextDriver.handleC15Text ws)
 
 end Noodles.Hostile
